@@ -687,13 +687,29 @@ def gen_layout(rng, units, scheme=None):
         labs = [""] * len(ids)
     labels = {str(i): l for i, l in zip(ids, labs)}
     ter = "each" if scheme in ("distinct", "blank_ter") else ("none" if scheme == "blank_noter" else rng.choice(["each", "chain", "none"]))
-    # distinct residue numbers, room for the tripeptide neighbours
-    slots = rng.sample(range(-30, 1900), len(ids))
-    seqs = {str(i): 5 * s + rng.randint(0, 1) for i, s in zip(ids, slots)}
-    if rng.random() < 0.2:
-        seqs = {str(i): 10 + 4 * k for k, i in enumerate(order)}  # plain increasing
+    # residue numbers: spaced at random / consecutive in file order / the same number in every chain
+    nscheme = rng.choice(["spaced", "spaced", "consecutive", "consecutive", "same_number"])
+    if nscheme == "same_number" and scheme != "distinct":
+        nscheme = "consecutive"
+    kinds = {u["id"]: u["kind"] for u in units}
+    if nscheme == "spaced":
+        slots = rng.sample(range(-30, 1900), len(ids))
+        seqs = {str(i): 5 * s + rng.randint(0, 1) for i, s in zip(ids, slots)}
+    elif nscheme == "same_number":
+        n0 = rng.choice([1, 7, -2, 500, 9998])
+        seqs = {str(i): n0 for i in ids}
+    else:
+        cnt = rng.choice([1, 1, -4, 17, 995, 9980])
+        seqs = {}
+        for i in order:
+            if kinds[i] == "tri":
+                seqs[str(i)] = cnt + 1
+                cnt += 3
+            else:
+                seqs[str(i)] = cnt
+                cnt += 1
     icodes = {str(i): rng.choice("ABZ") for i in ids if rng.random() < 0.1}
-    return {"order": order, "labels": labels, "seqs": seqs, "icodes": icodes, "ter": ter, "scheme": scheme}
+    return {"order": order, "labels": labels, "seqs": seqs, "icodes": icodes, "ter": ter, "scheme": scheme, "nscheme": nscheme}
 
 
 def gen_case(rng, mode, pattern=None, pclass=None):
@@ -762,7 +778,7 @@ def case_key(case):
     cls, rel = classify(case)
     kinds = sorted(c[0] for c in cls.values())
     lay = case["layout"]
-    return (case["pattern"], case["pclass"] if "pair" in case["pattern"] else "", tuple(kinds), lay["scheme"], tuple(processing_order(case)), case["mode"],
+    return (case["pattern"], case["pclass"] if "pair" in case["pattern"] else "", tuple(kinds), lay["scheme"], lay.get("nscheme"), tuple(processing_order(case)), case["mode"],
             tuple(sorted((u["name"], u["variant"], u["hg"], u["kind"]) for u in case["units"])))
 
 
@@ -1056,11 +1072,29 @@ def run(ctx):
     ]
 
 
+def model_vs_impl(ctx, case):
+    """re-evaluate the model on one case and compare with the implementation"""
+    obs, multi = run_direct(case) if case["mode"] == "direct" else (run_driver(ctx, case)[0], None)
+    inst = "F" if has_boundary_pair(case) and not all_dyadic(case) else "Z"
+    mout = core.run_cases("C13r", HEADER, [term_F(case) if inst == "F" else term_Z(case)])[0]
+    mcanon, mmulti = canon_model(mout)
+    iout = canon_impl(case, obs)
+    same = iout == mcanon and (multi is None or isinstance(obs, str) or multi == mmulti)
+    return same, f"impl={iout} (multi {multi}) model[{inst}]={mcanon} (multi {mmulti})"
+
+
 def replay(ctx, data):
-    case = data.get("case") or (data.get("broken") or [{}])[0].get("case")
+    case = data.get("case")
     if not case:
-        print("replay: no concrete case in this file (proof/correspondence break without input):", data.get("no_longer_checks"))
-        return 1
+        # proof / correspondence break: replay the first disagreeing case against the model
+        bc = [b for b in data.get("broken", []) if isinstance(b.get("case"), dict) and "units" in b["case"]]
+        if not bc:
+            print("replay: no concrete case in this file (proof break without input):", data.get("no_longer_checks"))
+            return 1
+        same, txt = model_vs_impl(ctx, bc[0]["case"])
+        ctx.cleanup()
+        print("replay: correspondence", "holds now" if same else "STILL BROKEN", "|", txt)
+        return 0 if same else 1
     if "real" in case:
         before = len(ctx.failures)
         real_structure_check(ctx, case["real"])
